@@ -68,6 +68,10 @@ def _update_path_functions(col):
         for cname in ("MutableRef", "ObjectAttrRef"):
             if repo.has_method(cname, meth):
                 out.append(fnctx(repo, cname, meth))
+    # the assignment entry points of the environment proxy: the whole update runs inside `self._[key] = value`
+    for meth in ("__setitem__", "__setattr__"):
+        if repo.has_method("DepEnv", meth):
+            out.append(fnctx(repo, "DepEnv", meth))
     # private helpers the functions above delegate to (self._helper(...), Class._helper, module-level _helper)
     seen = {id(cx.fn) for cx in out}
     work = list(out)
@@ -142,7 +146,15 @@ def _no_swallowing(col, rule="C18.R1"):
             for h in t.handlers:
                 types = [A.dotted(e) for e in (h.type.elts if isinstance(h.type, ast.Tuple) else [h.type])] if h.type is not None else ["<bare>"]
                 if handler_reraises(cx, h):
-                    col.ok(rule, f"{cx.qual}#handler-reraises", cx.module.loc(h), "the handler re-raises on every path", f"except {types}")
+                    # ... the exception it caught: a new exception object built in the handler (even of the same type, even chained
+                    # `from` the original) is not the one the task raised -- its payload (errno, args, attributes) is gone
+                    other = [r for st_ in h.body for r in A.walk(st_) if isinstance(r, ast.Raise) and r.exc is not None
+                             and not (isinstance(r.exc, ast.Name) and r.exc.id == h.name)]
+                    nested = [r for st_ in h.body for x in A.walk(st_) if isinstance(x, ast.Try) for r in A.walk(x) if isinstance(r, ast.Raise)]
+                    other = [r for r in other if r not in nested]
+                    col.add(rule, f"{cx.qual}#handler-reraises", not other, cx.module.loc(other[0] if other else h),
+                            "the handler re-raises, on every path, the exception it caught", f"except {types}" + (f": {A.src(other[0])[:60]}" if other else ""),
+                            positive=bool(other))
                     continue
                 allowed = cx.cls is not None and cx.cls.name in ZERO_DIV_CLASSES and cx.fn.name == "_get_value" and types == ["ZeroDivisionError"]
                 if allowed:
